@@ -1,6 +1,7 @@
 import Gallia.Lib.Proto
 import Gallia.Model.Lifecycle
 import Gallia.Spec.Lifecycle
+import Gallia.Model.LifecycleDb
 open Gallia Gallia.Proto Gallia.Lifecycle
 
 /-
@@ -9,6 +10,9 @@ open Gallia Gallia.Proto Gallia.Lifecycle
     spec <world> <kind> <cfg:8 bits> <script:18 words> | <final>                   -> ok | clause,clause
     code <kind> <cfg:8 bits> <script:18 words>                                     -> expected exit code of a run that starts
     start <world> <kind> <cfg:8 bits>                                              -> noLock | noArtDir | started
+    dbrun  <kind> <call|-> <idx> <mode> <body event>                               -> exit=.. row=.. closed=.. finished=.. fired=..
+    dbspec <kind> <call|-> <idx> <mode> <body event> | <the same fields, observed> -> ok | clause,clause
+           call : connect | insert | complete | disconnect ('-' = no fault)   mode : raise | cancel
   cfg bits : lock art db hooks power dumpcap tp props
   script   : pre dbopen power dumpcap connect ecuConnect tpStart propsPre setup main tdPre propsPost tpStop ecuClose close
              dcStop tdPost post
@@ -213,8 +217,58 @@ def splitBar : List String → List String × List String
   | "|" :: rest => ([], rest)
   | x :: rest => let r := splitBar rest; (x :: r.1, r.2)
 
+open DbFault in
+def parseFault (c i m : String) : Option (Option Fault) :=
+  if c == "-" then some none else do
+    let call ← match c with
+      | "connect" => some Call.connect
+      | "insert" => some Call.insert
+      | "complete" => some Call.complete
+      | "disconnect" => some Call.disconnect
+      | _ => none
+    let mode ← match m with
+      | "raise" => some Mode.raise
+      | "cancel" => some Mode.cancel
+      | _ => none
+    some (some ⟨call, ← i.toNat?, mode⟩)
+
+def showRow : DbFault.Row → String
+  | none => "absent"
+  | some none => "running"
+  | some (some c) => s!"done:{c}"
+
+def showOut (o : DbFault.Out) : String :=
+  let exit := match o.exit with
+    | .ret n => s!"ret:{n}"
+    | _ => "esc:cancelled"
+  s!"exit={exit} row={showRow o.row} closed={b01 o.closed} finished={b01 o.finished} fired={b01 o.fired}"
+
+def parseOut : List String → Option DbFault.Out
+  | [e, r, c, f, fi] => do
+    let exit ← match (← kv "exit" e).splitOn ":" with
+      | ["ret", n] => n.toNat?.map Outcome.ret
+      | ["esc", "cancelled"] => some .escCancelled
+      | _ => none
+    let row ← match (← kv "row" r).splitOn ":" with
+      | ["absent"] => some (none : DbFault.Row)
+      | ["running"] => some (some none)
+      | ["done", x] => x.toNat?.map fun n => some (some n)
+      | _ => none
+    some ⟨exit, row, ← parseBool (← kv "closed" c), ← parseBool (← kv "finished" f), ← parseBool (← kv "fired" fi)⟩
+  | _ => none
+
 def step (line : String) : String :=
   match words line with
+  | ["dbrun", k, c, i, m, b] =>
+    match parseKind k, parseFault c i m, parseEv b with
+    | some k, some f, some b => showOut (DbFault.run k f b)
+    | _, _, _ => "bad-op"
+  | "dbspec" :: k :: c :: i :: m :: b :: "|" :: obs =>
+    match parseKind k, parseFault c i m, parseEv b, parseOut obs with
+    | some k, some f, some b, some o =>
+      let v := DbFault.violations k f b o
+      if v.isEmpty then "ok" else ",".intercalate v
+    | _, _, _, _ => "bad-op"
   | "run" :: q :: w :: k :: bits :: script =>
     match parseQuirks q, parseWorld w, parseCfg k bits, parseScript script with
     | some q, some w, some c, some s => showFinal (entryPointW q w c s)
